@@ -92,8 +92,23 @@ class InMemoryMessageBroker(MessageBrokerT):
         params: ParametersT | None = None,
     ) -> None:
         logger.debug("Requeueing message with id: {id_}.", extra={"id_": key.id_})
-        await self.ack(key)
-        await self.enqueue(key, payload, params)
+        await asyncio.sleep(0)
+
+        delay: datetime | None = wait_until(params)
+        new_msg = Message(key, payload, params or self.PARAMETERS_CLASS())
+
+        # replace the message in one step, so that a cancellation can't drop it in between
+        q = self.queues[key.queue]
+        for msg in q.processing:
+            if msg.key.id_ == key.id_:
+                q.processing.remove(msg)
+                break
+        if delay is not None:
+            q.delayed.setdefault(delay, []).append(new_msg)
+        else:
+            q.simple.put_nowait(new_msg)
+
+        await asyncio.sleep(0)
 
     async def queue_declare(self, queue_name: str) -> None:
         logger.debug("Declaring queue '{queue_name}'.", extra={"queue_name": queue_name})
